@@ -167,6 +167,181 @@ example : (match (createLattice fourRooms true).1 with
     | .error _ => false) = true := by
   decide +kernel
 
+
+/-! ### vertex count: a function of the set of contour pixels; error and cell count under the maps -/
+
+theorem vertex_count_pixelset (cs cs' : List (List Px))
+    (h : ∀ p, (∃ c ∈ cs, p ∈ c) ↔ (∃ c ∈ cs', p ∈ c)) :
+    (rawOf cs).keys.length = (rawOf cs').keys.length := by
+  have hp : ((rawOf cs).keys.map (·.1)).Perm ((rawOf cs').keys.map (·.1)) := by
+    rw [List.perm_ext_iff_of_nodup (rawOf_keys_nodup cs) (rawOf_keys_nodup cs')]
+    intro p
+    rw [rawOf_keys_complete, rawOf_keys_complete, h]
+  simpa using hp.length_eq
+
+theorem vertex_count_perm (cs cs' : List (List Px)) (h : cs.flatten.Perm cs'.flatten) :
+    (rawOf cs).keys.length = (rawOf cs').keys.length := by
+  apply vertex_count_pixelset
+  intro p
+  have := h.mem_iff (a := p)
+  simpa [List.mem_flatten] using this
+
+theorem firstLoop_error_invariant (f : Px → Px) (hf : Function.Injective f) (cs : List (List Px)) (e : Err)
+    (h : precheck cs = some e) (b : Bool) :
+    createLattice (mapPx f cs) b = (.error e, false) ∧ createLattice cs b = (.error e, false) := by
+  constructor
+  · apply createLattice_unfold_error
+    cases b
+    · simpa [precheck_invariant f hf] using h
+    · simpa [precheck_mirror, precheck_invariant f hf] using h
+  · apply createLattice_unfold_error
+    cases b
+    · simpa using h
+    · simpa [precheck_mirror] using h
+
+theorem cells_eq_contours_map (f : Px → Px) (cs : List (List Px)) (b : Bool) (l : Lattice)
+    (h : (createLattice (mapPx f cs) b).1 = .ok l) (hi : l.isolated = []) : l.mesh.cells.length = cs.length := by
+  cases b
+  · rw [cells_eq_contours _ l h hi]; simp [mapPx]
+  · rw [cells_eq_contours_mirror _ l h hi]; simp [mapPx]
+
+theorem symmetry_mirror_invariance (W H dx dy : Int) (cs : List (List Px)) :
+    ∀ f ∈ imageMaps W H dx dy,
+      (rawOf (mirror (mapPx f cs))).cells = (rawOf cs).cells ∧
+      (rawOf (mirror (mapPx f cs))).edgesAdded = (rawOf cs).edgesAdded ∧
+      borderCells (rawMesh (mirror (mapPx f cs))) = borderCells (rawMesh cs) ∧
+      externalEdges (rawMesh (mirror (mapPx f cs))) = externalEdges (rawMesh cs) ∧
+      (rawMesh (mirror (mapPx f cs))).bigEdgesList = (rawMesh cs).bigEdgesList := by
+  intro f hf
+  have hi := imageMaps_injective W H dx dy f hf
+  have m := mirror_topology_invariant (mapPx f cs)
+  have t := rawOf_topology_invariant f hi cs
+  have g := flags_invariant f hi cs
+  exact ⟨m.1.trans t.1, m.2.1.trans t.2.1, m.2.2.1.trans g.1, m.2.2.2.1.trans g.2.1, m.2.2.2.2.trans g.2.2⟩
+
+/-- contour rotated / reversed -/
+example : (rawOf [[(0, 0), (1, 0), (1, 1), (0, 1)], [(1, 0), (2, 0), (2, 1), (1, 1)]]).keys.length = 6 ∧
+   (rawOf [[(1, 1), (2, 1), (2, 0), (1, 0)], [(1, 1), (0, 1), (0, 0), (1, 0)]]).keys.length = 6 := by decide +kernel
+
+/-! ### the whole of `create_lattice` is coordinate-free, hence invariant -/
+
+-- defined in ForsysModel/Proofs/C15more.lean:
+--   forgetSt st      = { st with mesh := forgetCoords st.mesh }
+--   forgetLattice l  = { l with mesh := forgetCoords l.mesh }
+--   forgetResult r   = (r.1.map forgetLattice, r.2)          exceptions and the D16 flag are kept
+
+/-- every clean-up stage commutes with forgetting the coordinates … -/
+theorem stages_coordinate_free (st : St) (bigs : List (List Id)) (ext : List Id) (fuel : Nat) (l : List Id) :
+    triangles (forgetSt st) bigs = (triangles st bigs).map forgetSt ∧
+    getArtifacts (forgetSt st) ext = getArtifacts st ext ∧
+    groupArtifacts fuel (forgetSt st) l = groupArtifacts fuel st l ∧
+    (t3 (forgetSt st) l).map forgetSt = (t3 st l).map forgetSt ∧
+    forgetCoords (finalMesh st) = finalMesh (forgetSt st) :=
+  ⟨c15_FS_triangles st bigs, c15_FS_getArtifacts st ext, c15_FS_group fuel st l, c15_t3_coordfree st l,
+    c15_F_finalMesh st⟩
+
+/-- … so the clean-up as a whole does: same exception or same lattice up to coordinates, same D16 flag (the positions
+    enter only the coordinates of the vertices created by `do_t3_transition`) -/
+theorem cleanup_coordinate_free (m0 : Mesh) : forgetResult (cleanup (forgetCoords m0)) = forgetResult (cleanup m0) :=
+  c15_cleanup_coordfree m0
+
+theorem cleanup_congr (m m' : Mesh) (h : forgetCoords m = forgetCoords m') :
+    forgetResult (cleanup m) = forgetResult (cleanup m') := by
+  rw [← c15_cleanup_coordfree m, ← c15_cleanup_coordfree m', h]
+
+/-- the symmetry clause for the whole modelled function: for every injective map of the pixel plane and both settings of
+    `mirror_y` on either side, `create_lattice` raises the same exception or returns the same lattice up to coordinates -/
+theorem createLattice_invariant (f : Px → Px) (hf : Function.Injective f) (cs : List (List Px)) (b b' : Bool) :
+    forgetResult (createLattice (mapPx f cs) b) = forgetResult (createLattice cs b') := by
+  have hm : ∀ X : List (List Px), forgetCoords (rawMesh (mirror X)) = forgetCoords (rawMesh X) :=
+    fun X => c15_forget_rawMesh_map (c15_mirrorMap_inj (maxY X)) X
+  have hF : forgetCoords (rawMesh (if b = true then mirror (mapPx f cs) else mapPx f cs))
+      = forgetCoords (rawMesh (if b' = true then mirror cs else cs)) := by
+    have h1 : forgetCoords (rawMesh (if b = true then mirror (mapPx f cs) else mapPx f cs))
+        = forgetCoords (rawMesh cs) := by
+      cases b
+      · exact c15_forget_rawMesh_map hf cs
+      · exact (hm _).trans (c15_forget_rawMesh_map hf cs)
+    have h2 : forgetCoords (rawMesh (if b' = true then mirror cs else cs)) = forgetCoords (rawMesh cs) := by
+      cases b'
+      · rfl
+      · exact hm _
+    rw [h1, h2]
+  have hP : precheck (if b = true then mirror (mapPx f cs) else mapPx f cs)
+      = precheck (if b' = true then mirror cs else cs) := by
+    have h1 : precheck (if b = true then mirror (mapPx f cs) else mapPx f cs) = precheck cs := by
+      cases b
+      · exact c15_precheck_map hf cs
+      · exact (precheck_mirror _).trans (c15_precheck_map hf cs)
+    have h2 : precheck (if b' = true then mirror cs else cs) = precheck cs := by
+      cases b'
+      · rfl
+      · exact precheck_mirror _
+    rw [h1, h2]
+  unfold createLattice
+  simp only
+  rw [hP]
+  cases precheck (if b' = true then mirror cs else cs) with
+  | some e => rfl
+  | none => exact cleanup_congr _ _ hF
+
+/-- unpacked: a lattice for the transformed image gives a lattice for the original with the same cells, mesh edges,
+    vertex keys, border cells, external edges, interfaces, artefact groups, removed vertices and removed cells -/
+theorem createLattice_invariant_fields (f : Px → Px) (hf : Function.Injective f) (cs : List (List Px)) (b b' : Bool)
+    (l' : Lattice) (h : (createLattice (mapPx f cs) b).1 = .ok l') :
+    ∃ l, (createLattice cs b').1 = .ok l ∧ l.mesh.cells = l'.mesh.cells ∧ l.mesh.edges = l'.mesh.edges ∧
+      l.mesh.vertices.map (·.1) = l'.mesh.vertices.map (·.1) ∧ l.border = l'.border ∧ l.external = l'.external ∧
+      l.bigEdges = l'.bigEdges ∧ l.artifacts = l'.artifacts ∧ l.triangleDeleted = l'.triangleDeleted ∧
+      l.isolated = l'.isolated ∧ (createLattice cs b').2 = (createLattice (mapPx f cs) b).2 := by
+  have hi := createLattice_invariant f hf cs b b'
+  have h1 := congrArg Prod.fst hi
+  have h2 := congrArg Prod.snd hi
+  simp only [forgetResult] at h1 h2
+  rw [h] at h1
+  cases hc : (createLattice cs b').1 with
+  | error e => rw [hc] at h1; simp only [Except.map] at h1; cases h1
+  | ok l =>
+    rw [hc] at h1
+    simp only [Except.map] at h1
+    injection h1 with h1
+    have hm : forgetCoords l'.mesh = forgetCoords l.mesh := congrArg Lattice.mesh h1
+    refine ⟨l, rfl, ?_, ?_, ?_, ?_, ?_, ?_, ?_, ?_, ?_, h2.symm⟩
+    · exact (show (forgetCoords _).cells = (forgetCoords _).cells from congrArg Mesh.cells hm).symm
+    · exact (show (forgetCoords _).edges = (forgetCoords _).edges from congrArg Mesh.edges hm).symm
+    · have := congrArg (fun m => m.vertices.map (·.1)) hm
+      simpa [forgetCoords, List.map_map, Function.comp_def] using this.symm
+    · exact (congrArg Lattice.border h1).symm
+    · exact (congrArg Lattice.external h1).symm
+    · exact (congrArg Lattice.bigEdges h1).symm
+    · exact (congrArg Lattice.artifacts h1).symm
+    · exact (congrArg Lattice.triangleDeleted h1).symm
+    · exact (congrArg Lattice.isolated h1).symm
+
+/-- mesh consistency (the six clauses of C09) is coordinate-free … -/
+theorem consistent_coordinate_free (m : Mesh) : (forgetCoords m).Consistent = m.Consistent :=
+  c15_forget_consistent m
+
+/-- … so the lattice of the transformed image is consistent exactly when the lattice of the original is -/
+theorem createLattice_consistent_invariant (f : Px → Px) (hf : Function.Injective f) (cs : List (List Px)) (b b' : Bool)
+    (l l' : Lattice) (h' : (createLattice (mapPx f cs) b).1 = .ok l') (h : (createLattice cs b').1 = .ok l) :
+    l'.mesh.Consistent = l.mesh.Consistent := by
+  have h1 := congrArg Prod.fst (createLattice_invariant f hf cs b b')
+  simp only [forgetResult] at h1
+  rw [h, h'] at h1
+  simp only [Except.map] at h1
+  injection h1 with h1
+  have hm : forgetCoords l'.mesh = forgetCoords l.mesh := congrArg Lattice.mesh h1
+  rw [← c15_forget_consistent l'.mesh, hm, c15_forget_consistent]
+
+/-- in particular `mirror_y` changes nothing but coordinates -/
+theorem createLattice_mirror_invariant (cs : List (List Px)) :
+    forgetResult (createLattice cs true) = forgetResult (createLattice cs false) := by
+  have := createLattice_invariant (fun p => p) (fun _ _ e => e) cs true false
+  simpa [mapPx] using this
+
+/-- non-vacuity: the four rooms (with T3 transitions) transposed — the result is a lattice -/
+example : isOk (createLattice (mapPx (fun p => (p.2, p.1)) fourRooms) false).1 = true := by decide +kernel
+
 /-! ### empty image -/
 
 /-- no contour: an empty lattice, nothing raised, with and without `mirror_y` -/
@@ -178,13 +353,8 @@ theorem createLattice_nil (b : Bool) :
   cases b <;> decide +kernel
 
 /- PENDING:
-   the clean-up stages (`cleanup`) commute with `forgetCoords` up to the coordinates of the vertices created by
-   `do_t3_transition`, i.e.
-     ∀ f injective, (createLattice (mapPx f cs) b).1 and (createLattice cs b).1 are both errors with the same exception or both
-     lattices with equal `border`, `external`, `bigEdges`, `artifacts`, `triangleDeleted`, `isolated` and meshes equal under
-     `forgetCoords`.
-   Every clean-up step reads ids / `ownEdges` / `ownCells` only (the positions enter only `mean xs`, `mean ys` of the new
-   vertex), so the statement is expected to hold; it needs a `forgetCoords` lemma for each of the ~15 modelled steps.
+   the number of mesh edges under re-ordering / re-rooting / reversal of the contours (OpenCV starts and orients the
+   contours of a flipped image differently; `vertex_count_pixelset` covers the vertex count, `rawOf_cells_length` the cells).
 -/
 
 end Forsys.Skel
